@@ -154,8 +154,12 @@ TotalsEqual(m, d) ==
 Sound(m, d) == Accept(m, d) => OracleMatch(m, d)
 \* the bare cross-validation is sound too once the manifest passed ValidateManifest's duplicate check
 CrossSoundP(m, d) == (Cross(m, d) = "ok" /\ NamesDistinct(m)) => OracleMatch(m, d)
-\* equal per-group totals  =>  not rejected by the resource comparison
-Complete(m, d) == TotalsEqual(m, d) => ~ResRejected(m, d)
+\* completeness, judged from accept / reject alone: a manifest equal to the chain groups in everything the statement
+\* lists (resources, replica counts AND endpoint counts, group by group) is not rejected by the cross-validation.
+\* (Which comparison rejects an UNEQUAL manifest, and with what error, is not the property's business.)
+Complete(m, d) == OracleMatch(m, d) => Cross(m, d) = "ok"
+\* the stronger fact about this code (resource errors only when totals differ) is conformance, not verdict
+CompleteRes(m, d) == TotalsEqual(m, d) => ~ResRejected(m, d)
 \* greedy = oracle, exactly, whenever the groups correspond
 GreedyIsOracleP(m, d) ==
     SameGroups(m, d) =>
